@@ -39,10 +39,12 @@ func NewHandlerWithoutLock(ctx context.Context, path string, defaultWaitTimeout 
 		openType: ForRead,
 	}
 
+	verifPoint("nolock.stat", h.path)
 	if !Exists(h.path) {
 		return h, NewNotExistError(fmt.Sprintf("file %s does not exist", h.path))
 	}
 
+	verifPoint("nolock.open", h.path)
 	fp, err := file.OpenToReadContext(tctx, retryDelay, h.path)
 	if err != nil {
 		return h, closeIsolatedHandler(h, err)
@@ -60,6 +62,7 @@ func NewHandlerForRead(ctx context.Context, path string, defaultWaitTimeout time
 		openType: ForRead,
 	}
 
+	verifPoint("read.stat", h.path)
 	if !Exists(h.path) {
 		return h, NewNotExistError(fmt.Sprintf("file %s does not exist", h.path))
 	}
@@ -68,6 +71,7 @@ func NewHandlerForRead(ctx context.Context, path string, defaultWaitTimeout time
 		return h, closeIsolatedHandler(h, err)
 	}
 
+	verifPoint("read.open", h.path)
 	fp, err := file.OpenToReadContext(tctx, retryDelay, h.path)
 	if err != nil {
 		return h, closeIsolatedHandler(h, err)
@@ -86,6 +90,7 @@ func NewHandlerForCreate(path string) (*Handler, error) {
 		openType: ForCreate,
 	}
 
+	verifPoint("create.stat", h.path)
 	if Exists(h.path) {
 		return h, NewAlreadyExistError(fmt.Sprintf("file %s already exists", h.path))
 	}
@@ -99,6 +104,7 @@ func NewHandlerForCreate(path string) (*Handler, error) {
 	}
 	h.lockFile = lockFile
 
+	verifPoint("create.create_file", h.path)
 	fp, err := file.Create(h.path)
 	if err != nil {
 		return h, closeIsolatedHandler(h, err)
@@ -116,6 +122,7 @@ func NewHandlerForUpdate(ctx context.Context, path string, defaultWaitTimeout ti
 		openType: ForUpdate,
 	}
 
+	verifPoint("update.stat", h.path)
 	if !Exists(h.path) {
 		return h, NewNotExistError(fmt.Sprintf("file %s does not exist", h.path))
 	}
@@ -124,6 +131,7 @@ func NewHandlerForUpdate(ctx context.Context, path string, defaultWaitTimeout ti
 		return h, closeIsolatedHandler(h, err)
 	}
 
+	verifPoint("update.open", h.path)
 	fp, err := file.OpenToUpdateContext(tctx, retryDelay, path)
 	if err != nil {
 		return h, closeIsolatedHandler(h, err)
@@ -164,6 +172,7 @@ func (h *Handler) close() error {
 	}
 
 	if h.fp != nil {
+		verifPoint("close.data_fd", h.path)
 		if err := file.Close(h.fp); err != nil {
 			return err
 		}
@@ -171,6 +180,7 @@ func (h *Handler) close() error {
 	}
 
 	if h.openType == ForCreate && Exists(h.path) {
+		verifPoint("close.remove_created", h.path)
 		if err := os.Remove(h.path); err != nil {
 			return err
 		}
@@ -191,6 +201,7 @@ func (h *Handler) close() error {
 	}
 	h.rlockFile = nil
 
+	verifPoint("close.done", h.path)
 	h.closed = true
 	return nil
 }
@@ -201,6 +212,7 @@ func (h *Handler) commit() error {
 	}
 
 	if h.fp != nil {
+		verifPoint("commit.data_fd", h.path)
 		if err := file.Close(h.fp); err != nil {
 			return err
 		}
@@ -209,6 +221,7 @@ func (h *Handler) commit() error {
 
 	if h.openType == ForUpdate {
 		if h.tempFile.fp != nil {
+			verifPoint("commit.temp_fd", h.path)
 			if err := file.Close(h.tempFile.fp); err != nil {
 				return err
 			}
@@ -216,11 +229,13 @@ func (h *Handler) commit() error {
 		}
 
 		if Exists(h.path) {
+			verifPoint("commit.remove_orig", h.path)
 			if err := os.Remove(h.path); err != nil {
 				return err
 			}
 		}
 
+		verifPoint("commit.rename", h.path)
 		if err := os.Rename(h.tempFile.path, h.path); err != nil {
 			return err
 		}
@@ -231,6 +246,7 @@ func (h *Handler) commit() error {
 		h.tempFile = nil
 	}
 
+	verifPoint("commit.swapped", h.path)
 	if err := h.lockFile.Close(); err != nil {
 		return err
 	}
@@ -241,6 +257,7 @@ func (h *Handler) commit() error {
 	}
 	h.rlockFile = nil
 
+	verifPoint("commit.done", h.path)
 	h.closed = true
 	return nil
 }
@@ -253,6 +270,7 @@ func (h *Handler) closeWithErrors() error {
 	var errs []error
 
 	if h.fp != nil {
+		verifPoint("cwe.data_fd", h.path)
 		if err := file.Close(h.fp); err != nil {
 			errs = append(errs, err)
 		} else {
@@ -261,6 +279,7 @@ func (h *Handler) closeWithErrors() error {
 	}
 
 	if h.openType == ForCreate && Exists(h.path) {
+		verifPoint("cwe.remove_created", h.path)
 		if err := os.Remove(h.path); err != nil {
 			errs = append(errs, err)
 		}
@@ -284,6 +303,7 @@ func (h *Handler) closeWithErrors() error {
 		h.rlockFile = nil
 	}
 
+	verifPoint("cwe.done", h.path)
 	return NewForcedUnlockError(errs)
 }
 
